@@ -37,10 +37,10 @@ def make_jobs(rnd, tier):
                 a = rnd.choice([0, 0, 1, -1, pick(), pick()])
                 add(p, n, [["input", 0, "priv", 0], ["meth", 1, m, None, 0, []]], [a], m, "priv")
         for m in ("assert_positive", "to_bits"):
-            for k in (None, 1, 2, 3, n + 1, max(1, n - 1)):
-                if 2 ** ((k or n) + 1) > p and p < 1000: continue
+            for k in (None, 0, 1, 2, 3, n + 1, max(1, n - 1)):
+                w = n if k is None else k
+                if 2 ** (w + 1) > p and p < 1000: continue
                 for _ in range(per):
-                    w = k or n
                     a = rnd.choice([0, 1, 2 ** w - 1, 2 ** w, 2 ** w + 1, -1, 2 ** n - 1, 2 ** n, rnd.randrange(0, 2 ** w), rnd.randrange(-2, 2 ** (w + 1))])
                     if not (-(p - 2 ** w) < a < p - 2 ** w): continue
                     add(p, n, [["input", 0, "priv", 0], ["meth", 1, m, k, 0, []]], [a], "%s(%s)" % (m, "default" if k is None else "k=%d" % k), "priv")
@@ -56,6 +56,15 @@ def make_jobs(rnd, tier):
             m2 = rnd.choice(["to_bits", "assert_positive"])
             add(p, n, [["input", 0, "priv", 0], ["input", 1, "priv", 1], ["guarded", 0, [["meth", 2, "to_bits", (None if w == n else w), 1, []]]], ["meth", 3, m2, (None if w == n else w), 1, []]],
                 [c, a], "%s-after-guarded-to_bits" % m2, "priv/priv")
+        # a narrower declaration after a wider decomposition of the same object (and the other way round): each call enforces its own width
+        for _ in range(per * 2):
+            k = rnd.choice([0, 1, 2, max(1, n - 1)])
+            a = clip(rnd.choice([0, 1, 2 ** k - 1, 2 ** k, 2 ** k + 1, 2 ** n - 1, rnd.randrange(0, 2 ** n)]))
+            m1, m2 = rnd.choice(["to_bits", "assert_positive"]), rnd.choice(["to_bits", "assert_positive"])
+            first = [["meth", 1, m1, None, 0, []], ["meth", 2, m2, k, 0, []]]
+            if rnd.random() < 0.3: first = [["meth", 1, m2, k, 0, []], ["meth", 2, m1, None, 0, []]]
+            if rnd.random() < 0.3: first = [["const", 5, ["int", 1]], ["bin", 1, "rshift", 0, 5], ["meth", 2, m2, k, 0, []]]
+            add(p, n, [["input", 0, "priv", 0]] + first, [a], "width-sequence:%s(k=%d)" % (m2, k), "priv")
         # boolean declaration of a secret through _ensurebool (LinCombBool & LinComb)
         for _ in range(per):
             a = rnd.choice([0, 1, 2, -1, 1, 0])
